@@ -12,6 +12,7 @@ import math
 
 import numpy as np
 
+from vmon import own
 from vmon import faults
 from vmon import refmodel as R
 from vmon import taps, world
@@ -30,8 +31,8 @@ ASSUMPTIONS = [
     'licensed cut-off: a transmittance term whose vertical optical depth is >= 10 at every wavenumber may be '
     'replaced by 0; by Abel summation the intensity then deviates by at most exp(-10)*(B_0 + sum_l |B_{l-1}-B_l|)',
 ]
-_Q = {'emission': 100, 'direct': 35, 'isothermal': 35, 'rerun': 40, 'ktable': 40, 'several': 25}
-_T = {'emission': 2000, 'direct': 600, 'isothermal': 600, 'rerun': 800, 'ktable': 700, 'several': 400}
+_Q = {'emission': 100, 'direct': 35, 'isothermal': 35, 'rerun': 40, 'ktable': 40, 'several': 25, 'star': 60}
+_T = {'emission': 2000, 'direct': 600, 'isothermal': 600, 'rerun': 800, 'ktable': 700, 'several': 400, 'star': 800}
 BUDGET = {
     'quick': [dict(name='boundscheck', env={'NUMBA_BOUNDSCHECK': '1'}, shards=4, cases=_Q)],
     'thorough': [dict(name='boundscheck', env={'NUMBA_BOUNDSCHECK': '1'}, shards=16, cases=_T),
@@ -39,13 +40,14 @@ BUDGET = {
 }
 REQUIRED = dict(monitors=['intensity-per-angle', 'flux', 'eclipse-spectrum', 'directimage-scaling',
                           'isothermal-identity', 'between-coldest-and-hottest', 'quadrature-nodes',
-                          'partial-model-equals-intensity', 'ktable-intensity-per-angle', 'ktable-flux'],
+                          'partial-model-equals-intensity', 'ktable-intensity-per-angle', 'ktable-flux',
+                          'earlier-result-stays-as-returned', 'caller-input-left-alone'],
                 classes=['model:emission', 'model:directimage', 'clamp-possible', 'no-clamp', 'ngauss:1', 'ngauss:8',
                          'T:isothermal', 'T:array', 'magnitude:transparent', 'magnitude:saturating',
                          'rerun:evaluated-after-change', 'mode:ktable', 'ktable:continuum-only-model',
                          'ktable:model_contrib-entry-judged', 'ktable-mode:no-molecular-absorber',
                          'fault:fired:temperature', 'fault:fired:chemistry', 'fault:fired:contribution', 'fault:fired:pressure',
-                         'several:evaluation-judged', 'several:set_quadratures-on-another-model', 'wn-dtype:i', 'T-route:mixin', 'chemistry:makefree+file', 'nlayers:1'])
+                         'several:evaluation-judged', 'several:set_quadratures-on-another-model', 'wn-dtype:i', 'T-route:mixin', 'chemistry:makefree+file', 'nlayers:1', 'star:refill-same-size', 'star:temperature-written'])
 CUT = math.exp(-10.0)
 _state = {}
 
@@ -432,6 +434,12 @@ def wl_rerun(ctx, rng):
         return
     res = oracle(ctx, snap, spec)
     judge_spectrum(ctx, snap, out, res, spec, kind)
+    # results kept by the caller while the same model goes on (ownership ledger): grid, spectrum, tau of every evaluation
+    led = own.Ledger(ctx, 'rerun')
+    for a_, l_ in zip(out[:3], ('grid', 'spectrum', 'tau')):
+        led.keep(a_, l_ + '[0]')
+    sed0 = model.star.spectralEmissionDensity
+    led.keep(sed0, 'star-sed[0]')
     changes_all = []
     for k in range(int(rng.integers(1, 4))):
         changes = base.perturb_model(rng, model)
@@ -458,6 +466,9 @@ def wl_rerun(ctx, rng):
         ctx.observe('rerun:evaluated-after-change')
         r2 = oracle(ctx, s2, spec)
         judge_spectrum(ctx, s2, out, r2, spec, kind)
+        led.settle('evaluation %d of the same model' % (k + 1))
+        for a_, l_ in zip(out[:3], ('grid', 'spectrum', 'tau')):
+            led.keep(a_, '%s[%d]' % (l_, k + 1))
     ctx.sig('rerun', kind, spec['nlayers'], spec['ngauss'], spec['magnitude'], tuple(n for ch in changes_all for n, _, _ in ch),
             round(spec['planet_mass'], 6))
 
@@ -518,7 +529,39 @@ def wl_several(ctx, rng):
     ctx.sig('several', tuple(kinds), tuple(seq), spec['nlayers'], spec['ngauss'], round(spec['planet_mass'], 6))
 
 
-WORKLOADS = {'several': wl_several, 'emission': wl_emission, 'direct': wl_direct, 'isothermal': wl_isothermal, 'rerun': wl_rerun,
+def wl_star(ctx, rng):
+    """The stellar term on its own, the way a caller with its own work array drives it: ``star.initialize(grid)`` with
+    ONE array object that is refilled in place with another grid of the same size between calls, the temperature written
+    through the public setter in between, earlier SEDs kept by the caller.  Each SED is the Planck function on the grid
+    of THAT call; what the caller lent is left alone; what it kept stays what it was."""
+    from taurex.data.stellar import BlackbodyStar
+    T = float(rng.uniform(2500, 10000))
+    star = BlackbodyStar(temperature=T, radius=float(rng.uniform(0.1, 3.0)))
+    n = int(rng.integers(2, 40))
+    buf = np.array(world.wn_grid(rng, n), dtype=float)
+    led = own.Ledger(ctx, 'star')
+    for k in range(int(rng.integers(2, 6))):
+        led.lend(buf, 'grid handed to star.initialize')
+        star.initialize(buf)
+        sed = star.spectralEmissionDensity
+        ctx.close('star-sed', sed, R.planck_taurex_units(buf, T), 1e-9, call=k, route='star.initialize(own array)')
+        led.settle('star.initialize call %d' % k)
+        led.keep(sed, 'sed[%d]' % k)
+        how = ['refill-same-size', 'same-again', 'temperature-written', 'fresh-array'][rng.integers(0, 4)]
+        if how == 'refill-same-size':
+            g2 = np.array(world.wn_grid(rng, n), dtype=float)
+            if len(g2) == n:
+                led.refill(buf, g2)
+        elif how == 'temperature-written':
+            T = float(np.clip(T * rng.uniform(0.7, 1.3), 2300.0, 11000.0))
+            star.temperature = T
+        elif how == 'fresh-array':
+            buf = np.array(world.wn_grid(rng, n), dtype=float)
+        ctx.observe('star:' + how)
+    ctx.sig('star', n, round(T, 3))
+
+
+WORKLOADS = {'star': wl_star, 'several': wl_several, 'emission': wl_emission, 'direct': wl_direct, 'isothermal': wl_isothermal, 'rerun': wl_rerun,
              'ktable': wl_ktable}
 
 LEVEL_TEXT = ('Exploration by runtime monitoring: every evaluate_emission / compute_final_flux call made by the workload '
